@@ -259,6 +259,14 @@ def check_history(case):
                 psc = script_spec(prev[0], prev[1], "on_iteration", 3, seed=5)      # listed order [A, B]; this run uses [B, A]
             if case.get("variant") == "denormal":
                 psc = script_spec(prev[0], prev[1], "on_iteration", 3, seed=5)      # an ordinary simulation before
+            if case.get("variant") == "geometry":
+                # same number of cells, other geometry: edge surface / distance and volumes of the PREVIOUS space differ
+                psp = psc["system"]["space"]
+                if psp["type"] == "graph":
+                    psp["nodes"] = [{"vol": 3.0, "env": 0}, {"vol": 0.5, "env": 0}]
+                    psp["edges"] = [[0, 1, 4.0, 0.25]]
+                else:
+                    psp["vol"] = 8.0
             e_prev = eng.make_engine(prev[0])
             run_plain(e_prev, models.build_script(psc))
             if case["finalize_prev"]:
@@ -314,6 +322,53 @@ def check_seed(case):
     return out
 
 
+MUTATIONS = ["set_state", "set_chemostat", "state-array-item", "time_step", "t_sample", "seed", "none"]
+
+
+def _mutate(script, how):
+    sy = script.system
+    if how == "set_state":
+        sy.set_state(0, 0, 77.0)
+    elif how == "set_chemostat":
+        sy.set_chemostat(0, 0, True)
+    elif how == "state-array-item":
+        sy.state.value[1] = 55.0
+    elif how == "time_step":
+        script.time_step = script.time_step * 2 if hasattr(script.time_step, "__mul__") else script.time_step
+    elif how == "t_sample":
+        script.t_sample = [0, 0.1]
+    elif how == "seed":
+        script.rng_seed = (script.rng_seed or 0) + 12345
+
+
+def check_stored(case):
+    """The script stored in a trajectory reproduces it - also after the caller went on using (and editing in place)
+    the script object it had passed in, and the caller's script is not affected by edits of the stored one."""
+    out = []
+    engine, gtype, policy, how, side = case["engine"], case["gtype"], case["policy"], case["mutation"], case["side"]
+    try:
+        from strengths.simulate import simulate_script
+        sc = script_spec(engine, gtype, policy, 4)
+        script = models.build_script(sc)
+        o1 = simulate_script(script, eng.make_engine(engine))
+        ref = (o1.t.value.tobytes(), o1.data.value.tobytes())
+        if side == "caller-edited":
+            _mutate(script, how)
+            o2 = simulate_script(o1.script, eng.make_engine(engine))
+            who = "the script stored in the trajectory, after the caller's script object was edited in place (%s)" % how
+        else:
+            _mutate(o1.script, how)
+            o2 = simulate_script(script, eng.make_engine(engine))
+            who = "the caller's script, after the script stored in the trajectory was edited in place (%s)" % how
+        if (o2.t.value.tobytes(), o2.data.value.tobytes()) != ref:
+            out.append(("C08:stored-script:%s:%s" % (side, how), "%s no longer reproduces the trajectory (%s, %s, %s)" % (who, engine, gtype, policy)))
+        if (o1.t.value.tobytes(), o1.data.value.tobytes()) != ref:
+            out.append(("C08:stored-script:%s:%s:trajectory-object-changed" % (side, how), "the first trajectory's own arrays changed"))
+    except Exception as ex:
+        out.append(("C08:stored-script:unexpected-exception", "%s: %s" % (type(ex).__name__, ex)))
+    return out
+
+
 def check_given_seed(case):
     """An explicitly given seed is kept, and the script built twice from the same description gives the same trajectory."""
     out = []
@@ -343,6 +398,8 @@ def check_case(case):
         return check_schedule(case)
     if case["sub"] == "history":
         return check_history(case)
+    if case["sub"] == "stored":
+        return check_stored(case)
     return check_seed(case)
 
 
@@ -411,7 +468,7 @@ def gen_cases(tier, seed0):
                     if prev is None and not fin:
                         continue
                     for pol in (("on_t_sample", "on_iteration") if tier == "thorough" else ("on_t_sample",)):
-                        for var in (None, "units", "redist", "bc", "species-order", "denormal"):
+                        for var in (None, "units", "redist", "bc", "species-order", "denormal", "geometry"):
                             if var == "denormal" and this[0] != "euler":
                                 continue
                             c = {"sub": "history", "prev": prev, "this": list(this), "same_object": same, "finalize_prev": fin, "policy": pol}
@@ -430,15 +487,24 @@ def gen_cases(tier, seed0):
         for sd in (0, 1, 2 ** 31 - 1, 2 ** 31, 2 ** 32 - 1):
             given.append({"sub": "given-seed", "engine": e, "gtype": g, "given_seed": sd})
     cases += given
+    stored = []
+    for (e, g) in KINDS:
+        for p in (POLICIES if tier == "thorough" else POLICIES[:2]):
+            for how in MUTATIONS:
+                for side in ("caller-edited", "stored-edited"):
+                    stored.append({"sub": "stored", "engine": e, "gtype": g, "policy": p, "mutation": how, "side": side})
+    cases += stored
     sizes = [("driver schedules: all %d ways to consume a %d-iteration run with iterate / iterate_n(1..3) / run(0) / clock-scripted "
               "run slices of 1..3 iterations / run-to-completion x %d scripts (engines x space types x policies)" % (nsch, n, len(scripts)),
               nsch * len(scripts)),
              ("driver schedules of a 7-iteration run (%d each) x 3 scripts" % (len(n7) // 3 if n7 else 0), len(n7)),
              ("iterate_n(0) inserted at every position of every schedule of a 2-iteration run x 6 kinds", len(n0)),
-             ("process histories: (previous kind or none) x this kind x same/new object x previous finalized or not x {default, non-default output units, redistributed real-valued state}, 3 repetitions of the same script object", len(hist)),
+             ("process histories: (previous kind or none) x this kind x same/new object x previous finalized or not x {default, non-default output units, redistributed real-valued state, other boundary setting, species order, denormal amounts, other geometry}, 3 repetitions of the same script object", len(hist)),
              ("seeds: rng_seed=None drawn under random.seed(r), stored script reproduces, neighbour seed differs (stochastic) / "
               "does not (Euler): 24 scripts x seed window", len(seeds)),
-             ("explicitly given seeds {0, 1, 2^31-1, 2^31, 2^32-1} x 6 kinds: seed kept, same description twice => same trajectory", len(given))]
+             ("explicitly given seeds {0, 1, 2^31-1, 2^31, 2^32-1} x 6 kinds: seed kept, same description twice => same trajectory", len(given)),
+             ("stored scripts: 6 kinds x policies x 7 in-place edits (system state / chemostat / raw array item / time step / request list / seed / none) of "
+              "{the caller's script, the stored script} after the run: the other one still reproduces the trajectory", len(stored))]
     return cases, sizes
 
 
